@@ -12,8 +12,9 @@
          sign_extend / big_endian_reverse as exact bit wiring for constant positions; RRX_C.
   C17-X  shifter width: every call of a shift primitive passes the operand width 32 (the only
          other width is ITAdvance's 4-bit mask).
-  Not decided (declared): the numeric results of AddWithCarry, the variable-amount shifters,
-  saturation, bit counts - arithmetic over run-time values.
+  C17-A  arithmetic primitives bit-exact (sa/props/c17_arith.py): AddWithCarry, add/sub, the four
+         shifters and Shift_C for every amount, the expand-immediate functions for all 4096
+         immediates, saturation for every N, to_signed/to_unsigned/sign_extend, bit counts.
 """
 import ast
 
@@ -450,6 +451,19 @@ def main(repo_path, tier, seed, replay=None):
     check_indexed(run, repo)
     check_helpers(run, repo)
     check_shifter_width(run, repo)
+    from . import c17_arith
+    c17_arith.check_arith(run, repo)
+    # positive control: carry-out of AddWithCarry taken from bit 31 of the sum (in memory)
+    bo = repo.module('armulator.armv6.bits_ops')
+    old = 'carry_out = 0 if result == unsigned_sum else 1'
+    fired, what = False, ''
+    if old in bo.source:
+        mrepo = Repo(repo_path, overrides={bo.relpath: bo.source.replace(old, 'carry_out = (unsigned_sum >> (size - 1)) & 1', 1)})
+        tmp = Run('C17')
+        c17_arith.check_arith(tmp, mrepo)
+        fired = any('add_with_carry' in f.construct for f in tmp.findings)
+        what = 'add_with_carry: carry-out taken from bit 31 of the sum'
+    run.control('C17-A carry-out', fired, what)
     # positive control: CPSR.q moved to bit 26 (in memory)
     ci = repo.cls('CPSR')
     src = ci.module.source
@@ -463,9 +477,8 @@ def main(repo_path, tier, seed, replay=None):
         what = 'CPSR.q getter moved to bit 26'
     run.control('C17-V field moved', fired, what)
     run.exhaustive = True
-    run.undecided = ['AddWithCarry, LSL_C/LSR_C/ASR_C/ROR_C with run-time amounts, SignedSatQ/UnsignedSatQ, bit counts: the numeric '
-                     'results for every width and argument are arithmetic over run-time values - no sound static argument in reach; '
-                     'only their decision tables, argument wiring and result widths (C10-W) are decided']
+    run.undecided = ['widths other than the ones the instruction set uses (AddWithCarry, shifts and expand-immediate at 32 bits; '
+                     'saturation for N in 0..32 on 36-bit inputs; bit counts at 16/32 bits)']
     run.assumptions = ['spec/regfields.json transcribes the architectural field positions (generated from the tree, audited; '
                        'TTBCR.ORGN0 corrected to [11:10])']
     return run.finish(
@@ -474,5 +487,7 @@ def main(repo_path, tier, seed, replay=None):
         '(substring, set_substring, bit_at, set_bit_at, chain, lower_chunk, bit_not, sign_extend, align, big_endian_reverse, '
         'RRX_C) for every constant position, DecodeImmShift / DecodeRegShift tables, the Shift_C dispatch and the '
         'expand-immediate argument wiring by bit-vector abstract interpretation; operand width 32 at every shifter call site. '
-        'The arithmetic content of the first sentence of the property is declared undecided.',
+        'C17-A: AddWithCarry, add/sub, LSL_C/LSR_C/ASR_C/ROR_C and Shift_C for every amount 0..255, ARM/ThumbExpandImm_C for all '
+        '4096 immediates, SignedSatQ/UnsignedSatQ for every N, to_signed/to_unsigned/sign_extend for every width, bit counts and '
+        'LowestSetBit are interpreted with fully symbolic arguments and compared bit for bit with gate-level / wiring references.',
         './check C17 --tier %s' % tier)
